@@ -540,3 +540,20 @@ def check_union_kinds_agree(ctx):
                     f"without raising: `PyTree[A | B]` accepts every leaf", construct=f"check_type: no dispatch for {k}")
     ctx.counters["union_kinds"] = len(kinds)
     ctx.floor("C08.8", "union_kinds", 2)
+
+
+def check_leaves_single_source(ctx, tag="C08.3"):
+    """The list the leaves loop runs over is bound once per activation, from `tree_flatten(<the value>)`: a filtered / re-ordered / remembered
+    list shifts or drops leaf positions (C16: the '?' label is the position in that list)."""
+    m = ctx.model
+    f = _meta(ctx).methods["_check"]
+    obj_p = f.params[1] if len(f.params) > 1 else "obj"
+    defs = [a for a in walk_scope(f.node) if isinstance(a, ast.Assign) and any("leaves" in [norm(e) for e in (t.elts if isinstance(t, ast.Tuple) else [t])] for t in a.targets)]
+    need(any(isinstance(a.value, ast.Call) and "tree_flatten" in norm(a.value.func) for a in defs), f"{tag}: the binding of `leaves` from tree_flatten was not found")
+    other = [a for a in defs if not (isinstance(a.value, ast.Call) and "tree_flatten" in norm(a.value.func) and a.value.args and norm(a.value.args[0]) == obj_p)
+             and not (isinstance(a.value, ast.Constant) and a.value.value is None)]
+    if other:
+        ctx.bad(tag, f, other[0], f"the leaves that are checked can also come from `{short(other[0].value, 50)}`, not from flattening the value being checked in this call: "
+                "leaf positions are shifted / dropped (a filtered list), or stale (a remembered one)", construct="leaves not from this call's tree_flatten")
+    else:
+        ctx.ok(tag, f.qualname, "the checked leaves have one source: tree_flatten of the value, in this call")
